@@ -198,7 +198,7 @@ class Layout:
             if dirpath != self.root:
                 nested += dirs + files
         files_top = [n for n in top if os.path.isfile(os.path.join(self.root, n))]
-        fixed = ["..", ".", "", "%2e%2e", "catalog.xml", self.siblings[0], self.root_name, "secret.txt"]
+        fixed = ["..", ".", "", "%2e%2e", "%252e%252e", "catalog.xml", self.siblings[0], self.root_name, "secret.txt"]
         derived = []
         for f in files_top[:4]:
             derived.append(f + rng.choice([".dds", ".das", ".dods", ".ver", ".asc"]))
@@ -543,7 +543,7 @@ def pure_cases(ctx, rng, handlers, exts, n):
 def explore(ctx, tier, search=False):
     install_hooks()
     n_layouts = 2 if tier == "quick" else 8
-    alpha_size = 15 if tier == "quick" else 22
+    alpha_size = 16 if tier == "quick" else 22
     n_sampled = 1500 if tier == "quick" else 12000
     if search:
         n_layouts, alpha_size, n_sampled = 4, 20, 6000
